@@ -47,6 +47,10 @@ func init() {
 		mutant{"repeating timer ignores cancel from its callback", "timer.go",
 			"\t\t\tif t.cancelled {\n\t\t\t\tt.cancelled = false\n\t\t\t} else {\n\t\t\t\t// TODO this error should not be ignored\n\t\t\t\t_ = t.ScheduleOnce(repeat, ccb)\n\t\t\t}",
 			"\t\t\tt.cancelled = false\n\t\t\t_ = t.ScheduleOnce(repeat, ccb)", "C04-R4"},
+		mutant{"immediate callback clears the repeat flag", "timer.go",
+			"\tif t.state == stateReady {\n\t\tif delay <= 0 {", "\tif t.state == stateReady {\n\t\tt.cancelled = false\n\t\tif delay <= 0 {", "C04-R4"},
+		mutant{"immediate callback on a closed timer", "timer.go",
+			"func (t *Timer) ScheduleOnce(delay time.Duration, cb func()) (err error) {\n", "func (t *Timer) ScheduleOnce(delay time.Duration, cb func()) (err error) {\n\tif delay <= 0 && !t.Scheduled() {\n\t\tcb()\n\t\treturn nil\n\t}\n", "C04-R4"},
 		mutant{"Cancel does not flag the repeating closure", "timer.go",
 			"\t\tt.cancelled = true\n\t\tt.state = stateReady", "\t\tt.state = stateReady", "C04-R4"},
 		mutant{"Scheduled reports ready timers", "timer.go",
@@ -438,7 +442,7 @@ func runC04(c *Ctx) {
 	}
 
 	// ------------------------------------------------------------------------------------------------ R4
-	c.rule("C04-R4", "repetition: re-arm only under !cancelled and after the user callback; Cancel sets the flag on success; ScheduleOnce clears it", 4)
+	c.rule("C04-R4", "repetition: re-arm only under !cancelled and after the user callback; Cancel sets the flag on success; ScheduleOnce clears it where a schedule begins; the immediate callback needs a ready timer", 6)
 	{
 		var rep *ssa.Function
 		for _, a := range schedRep.AnonFuncs {
@@ -491,6 +495,50 @@ func runC04(c *Ctx) {
 			}
 		}
 		c.check(cleared, schedOnce, "cancelled=false", schedOnce.Pos(), "ScheduleOnce clears the flag", "ScheduleOnce does not clear the cancelled flag: a timer cancelled earlier and scheduled again stops repeating after one shot")
+		// ... but only where a schedule begins: the immediate-callback path (delay <= 0) arms nothing, and clearing the flag
+		// there loses a Cancel issued from inside a repeating timer's own callback (the wrapper would re-arm)
+		// and the immediate callback runs only on a ready timer (a closed one is not revived, a scheduled one not disturbed)
+		{
+			paths, overflow := enumPaths(schedOnce)
+			if overflow {
+				c.unproven(schedOnce, "paths", schedOnce.Pos(), "too many paths")
+			}
+			lost := ""
+			nImm := 0
+			for _, path := range paths {
+				clears, immediate := false, false
+				for _, in := range path.Instrs() {
+					if st, ok := in.(*ssa.Store); ok {
+						if fv, _ := fieldAddrOf(st.Addr); fv == cancelledF && isConstBool(st.Val, false) {
+							clears = true
+						}
+					}
+					if cc, ok := in.(ssa.CallInstruction); ok && isDynamicFuncCall(cc) {
+						if _, isPrm := resolveCell(strip(cc.Common().Value)).(*ssa.Parameter); isPrm {
+							immediate = true
+						}
+					}
+				}
+				if immediate {
+					nImm++
+				}
+				if immediate && clears {
+					lost = path.String()
+				}
+			}
+			c.check(lost == "", schedOnce, "immediate path keeps the flag", schedOnce.Pos(), "the flag is cleared only on paths that arm the timer", "the path that runs the callback at once (non-positive delay) clears the cancelled flag although it arms nothing ("+lost+"): a repeating timer whose callback cancels it and then schedules an immediate callback re-arms itself and keeps repeating")
+			eachInstr(schedOnce, func(in ssa.Instruction) {
+				cc, ok := in.(ssa.CallInstruction)
+				if !ok || !isDynamicFuncCall(cc) {
+					return
+				}
+				if _, isPrm := resolveCell(strip(cc.Common().Value)).(*ssa.Parameter); !isPrm {
+					return
+				}
+				al := allowedStates(in.Block(), stateF, 3)
+				c.check(len(al) == 1 && al[ready], schedOnce, "immediate callback", in.Pos(), "the callback is run at once only when state == stateReady", "ScheduleOnce runs the callback at once without having established state == stateReady: a closed timer is revived (its callback runs and nil is returned) or an existing schedule is bypassed")
+			})
+		}
 	}
 }
 
